@@ -130,6 +130,13 @@ def summarize(msg):
             if isinstance(arg, list):
                 out['things'] = [(t.get('uid'), t.get('state'))
                                  for t in arg if isinstance(t, dict)]
+                # (only when a thing's kind is not what its uid suggests)
+                if any(isinstance(t, dict) and t.get('type') and
+                       isinstance(t.get('uid'), str) and
+                       not t['uid'].startswith(t['type'])
+                       for t in arg):
+                    out['ttypes'] = [t.get('type') for t in arg
+                                     if isinstance(t, dict)]
             elif isinstance(arg, dict):
                 if 'uids' in arg:
                     out['uids'] = list(_ru.as_list(arg['uids']))
